@@ -441,12 +441,15 @@ class Randomizer(RandIF):
         if Randomizer.EN_DEBUG > 0:
             print("%d constraints remaining ; %d problem sets" % (len(diagnostic_constraint_l), len(problem_sets)))
 
-        # Assert the remaining constraints
+        # Check the remaining constraints. The search above only looks for 
+        # conflicts among a few constraints at a time, so the remainder may
+        # still be unsatisfiable: report it as one more problem set rather 
+        # than failing the diagnostic itself
         for c in diagnostic_constraint_l:
-            btor.Assert(c[1])
+            btor.Assume(c[1])
                 
         if btor.Sat() != btor.SAT:
-            raise Exception("internal error: system should solve")
+            problem_sets.append(tuple(diagnostic_constraint_l))
         
         # Okay, we now have a constraint system that solves, and
         # a list of constraints that are a problem. We want to 
